@@ -49,7 +49,10 @@ static int check_window(struct jls_rd_s *rd, const model_t *m, const win_t *w, c
     int unaligned = ((w->start * t->bits) & 7) != 0;
     int cross = spd > 0 && (w->start / spd) != ((w->start + w->len - 1) / spd);
     if (rc) {
-        snprintf(key, sizeof(key), "read-error|rc=%d|bits=%d|unaligned=%d|cross=%d|%s", rc, t->bits, unaligned, cross, fk(o));
+        int crashkind = strstr(fk(o), "writes") || strstr(fk(o), "torn") || strstr(fk(o), "omitted-blocks");
+        if (crashkind && (!strcmp(fk(o), "omitted-blocks") || !strcmp(fk(o), "torn-header-update"))) snprintf(key, sizeof(key), "read-error|%s", fk(o));
+        else if (crashkind) snprintf(key, sizeof(key), "read-error|rc=%d|%s", rc, fk(o));
+        else snprintf(key, sizeof(key), "read-error|rc=%d|bits=%d|unaligned=%d|cross=%d|%s", rc, t->bits, unaligned, cross, fk(o));
         v_violation(o->prop_data, key, wj, "jls_rd_fsr returned %d for an in-range window", rc);
         free(buf);
         return 1;
@@ -69,7 +72,9 @@ static int check_window(struct jls_rd_s *rd, const model_t *m, const win_t *w, c
             if (!o->exact_omitted && s->omit_ever && t->bits > 8 && stored == 0) continue;
             if (!o->exact_omitted && s->omit_ever && t->bits > 8 && stored == -2) continue;  /* no decoder view: cannot tell */
             int at_block_start = spd > 0 && (k % spd) == 0;
-            snprintf(key, sizeof(key), "data|bits=%d|kind=%d|unaligned=%d|cross=%d|%s%s%s|%s", t->bits, t->kind, unaligned, cross,
+            if (!strcmp(fk(o), "omitted-blocks")) snprintf(key, sizeof(key), "data|omitted-blocks");
+            else if (strstr(fk(o), "writes") || strstr(fk(o), "torn")) snprintf(key, sizeof(key), "data|%s|%s", stored == 0 ? "block-omitted" : "block-stored", fk(o));
+            else snprintf(key, sizeof(key), "data|bits=%d|kind=%d|unaligned=%d|cross=%d|%s%s%s|%s", t->bits, t->kind, unaligned, cross,
                      stored == 0 ? "block-omitted" : "block-stored", gap ? "|gap" : "", (at_block_start && i > 0) ? "|first-diff-at-block-start" : "", fk(o));
             long double ev = sample_value(s->data, k, t), gv = sample_value(buf, i, t);
             v_violation(o->prop_data, key, wj, "sample %lld (window offset %lld) reads %.12Lg, written %.12Lg", (long long) k, (long long) i, gv, ev);
@@ -247,7 +252,8 @@ static int check_stats_request(struct jls_rd_s *rd, const model_t *m, int sig, c
     }
     if (rc) {
         if (t->bits == 64 && rc == JLS_ERROR_UNSUPPORTED_FILE) { v_count(PS(o), "requests_unsupported_64bit", 1); free(out); return bad; }
-        snprintf(key, sizeof(key), "error-return|rc=%d|level=%d|count%s1|%s", rc, level, count > 1 ? ">" : "=", fk(o));
+        if (!strcmp(fk(o), "omitted-blocks") || !strcmp(fk(o), "torn-header-update")) snprintf(key, sizeof(key), "error-return|%s", fk(o));
+        else snprintf(key, sizeof(key), "error-return|rc=%d|level=%d|count%s1|%s", rc, level, count > 1 ? ">" : "=", fk(o));
         v_violation(PS(o), key, wj, "in-range statistics request returned %d", rc);
         free(out);
         return 1;
@@ -829,24 +835,39 @@ int verify_file(const char *path, const model_t *m, const verify_opts_t *o) {
 /* =====================================================================================
  * canonical dump
  * ===================================================================================== */
-typedef struct { uint64_t h; } hash_coll_t;
+typedef struct { uint64_t h; size_t n; uint64_t *seq; size_t cap; } hash_coll_t;
+static int g_keep_seq;
+void dump_keep_sequences(int on) { g_keep_seq = on; }
+static void coll_item(hash_coll_t *c) {
+    if (g_keep_seq) {
+        if (c->n == c->cap) { c->cap = c->cap ? c->cap * 2 : 32; c->seq = realloc(c->seq, c->cap * sizeof(uint64_t)); }
+        c->seq[c->n] = c->h;
+    }
+    c->n++;
+}
+void dump_free(dump_t *d) {
+    for (int i = 0; i < 256; ++i) { free(d->seq_anno[i]); free(d->seq_utc[i]); d->seq_anno[i] = d->seq_utc[i] = NULL; }
+    free(d->seq_user); d->seq_user = NULL;
+}
 static int32_t dump_anno_cbk(void *ud, const struct jls_annotation_s *a) {
     hash_coll_t *c = ud;
     c->h = fnv1a(&a->timestamp, 8, c->h);
     uint8_t f[4] = {a->annotation_type, a->storage_type, a->group_id, 0};
     c->h = fnv1a(f, 4, c->h); c->h = fnv1a(&a->y, 4, c->h); c->h = fnv1a(&a->data_size, 4, c->h);
     c->h = fnv1a(a->data, a->data_size, c->h);
+    coll_item(c);
     return 0;
 }
 static int32_t dump_utc_cbk(void *ud, const struct jls_utc_summary_entry_s *u, uint32_t n) {
     hash_coll_t *c = ud;
-    for (uint32_t i = 0; i < n; ++i) { c->h = fnv1a(&u[i].sample_id, 8, c->h); c->h = fnv1a(&u[i].timestamp, 8, c->h); }
+    for (uint32_t i = 0; i < n; ++i) { c->h = fnv1a(&u[i].sample_id, 8, c->h); c->h = fnv1a(&u[i].timestamp, 8, c->h); coll_item(c); }
     return 0;
 }
 static int32_t dump_user_cbk(void *ud, uint16_t meta, enum jls_storage_type_e st, uint8_t *data, uint32_t size) {
     hash_coll_t *c = ud;
     uint32_t s = (uint32_t) st;
     c->h = fnv1a(&meta, 2, c->h); c->h = fnv1a(&s, 4, c->h); c->h = fnv1a(&size, 4, c->h); c->h = fnv1a(data, size, c->h);
+    coll_item(c);
     return 0;
 }
 static uint64_t hstr(const char *s, uint64_t h) { if (!s) s = "\x01NULL"; return fnv1a(s, strlen(s) + 1, h); }
@@ -890,15 +911,17 @@ int dump_reader(struct jls_rd_s *rd, dump_t *d, uint64_t seed) {
         int id = defs[i].signal_id;
         d->present[id] = 1;
         hash_coll_t c;
+        memset(&c, 0, sizeof(c));
         c.h = FNV_INIT;
         int32_t rc = jls_rd_annotations(rd, (uint16_t) id, FAR_PAST, dump_anno_cbk, &c);
         if (rc) { d->errors++; c.h = fnv1a(&rc, 4, c.h); }
-        d->h_anno[id] = c.h;
+        d->h_anno[id] = c.h; d->n_anno[id] = c.n; d->seq_anno[id] = c.seq;
         if (defs[i].signal_type != JLS_SIGNAL_TYPE_FSR) continue;
+        memset(&c, 0, sizeof(c));
         c.h = FNV_INIT;
         rc = jls_rd_utc(rd, (uint16_t) id, FAR_PAST, dump_utc_cbk, &c);
         if (rc) { d->errors++; c.h = fnv1a(&rc, 4, c.h); }
-        d->h_utc[id] = c.h;
+        d->h_utc[id] = c.h; d->n_utc[id] = c.n; d->seq_utc[id] = c.seq;
         int64_t len = -1;
         rc = jls_rd_fsr_length(rd, (uint16_t) id, &len);
         if (rc) { d->errors++; len = -1000 - rc; }
@@ -942,10 +965,10 @@ int dump_reader(struct jls_rd_s *rd, dump_t *d, uint64_t seed) {
         }
         d->h_samples[id] = hs; d->h_stats[id] = hst;
     }
-    hash_coll_t c; c.h = FNV_INIT;
+    hash_coll_t c; memset(&c, 0, sizeof(c)); c.h = FNV_INIT;
     int32_t rc = jls_rd_user_data(rd, dump_user_cbk, &c);
     if (rc) { d->errors++; c.h = fnv1a(&rc, 4, c.h); }
-    d->h_user = c.h;
+    d->h_user = c.h; d->n_user = c.n; d->seq_user = c.seq;
     v_api("");
     h = FNV_INIT;
     h = fnv1a(&d->h_sources, 8, h); h = fnv1a(&d->h_signals, 8, h); h = fnv1a(&d->h_user, 8, h);
@@ -1272,5 +1295,61 @@ int verify_prefix(struct jls_rd_s *rd, const model_t *m, const char *prop, rng_t
         free(c.a);
     }
     if (have_dec) jd_free(&dec);
+    return bad;
+}
+
+static int seq_prefix(size_t na, const uint64_t *sa, uint64_t ha, size_t nb, const uint64_t *sb, uint64_t hb) {
+    /* 0: equal, 1: a is a proper prefix of b, -1: neither */
+    if (na == nb) return ha == hb ? 0 : -1;
+    if (na > nb) return -1;
+    if (na == 0) return 1;
+    if (!sa || !sb) return -1;
+    return sa[na - 1] == sb[na - 1] ? 1 : -1;
+}
+
+int dump_compare_prefix(const dump_t *a, const dump_t *b, const char *path_a, const char *path_b, const char *prop, const char *kp, const uint8_t *skip_fsr) {
+    char key[200];
+    int bad = 0;
+    if (a->open_rc || b->open_rc) { if (a->open_rc != b->open_rc) { snprintf(key, sizeof(key), "%s|open-rc", kp); v_violation(prop, key, NULL, "open returned %d vs %d", a->open_rc, b->open_rc); return 1; } return 0; }
+    if (a->h_sources != b->h_sources) { snprintf(key, sizeof(key), "%s|sources", kp); v_violation(prop, key, NULL, "sources differ"); bad++; }
+    int r = seq_prefix(a->n_user, a->seq_user, a->h_user, b->n_user, b->seq_user, b->h_user);
+    if (r < 0) { snprintf(key, sizeof(key), "%s|user-data", kp); v_violation(prop, key, NULL, "user data of the original (%zu items) is not a prefix of the copy's (%zu items)", a->n_user, b->n_user); bad++; }
+    else if (r > 0) { snprintf(key, sizeof(key), "%s|copy-has-more|user-data|%s", kp, b->n_user - a->n_user == 1 ? "one" : "several"); v_violation(prop, key, NULL, "the copy holds %zu user-data items, the reopened original %zu", b->n_user, a->n_user); bad++; }
+    struct jls_rd_s *ra = NULL, *rb = NULL;
+    for (int i = 0; i < 256; ++i) {
+        if (!a->present[i] && !b->present[i]) continue;
+        if (a->present[i] != b->present[i]) { snprintf(key, sizeof(key), "%s|signal-set", kp); v_violation(prop, key, NULL, "signal %d present in one file only", i); bad++; continue; }
+        r = seq_prefix(a->n_anno[i], a->seq_anno[i], a->h_anno[i], b->n_anno[i], b->seq_anno[i], b->h_anno[i]);
+        if (r < 0) { snprintf(key, sizeof(key), "%s|annotations", kp); v_violation(prop, key, NULL, "signal %d: annotations of the original (%zu) are not a prefix of the copy's (%zu)", i, a->n_anno[i], b->n_anno[i]); bad++; }
+        else if (r > 0) { snprintf(key, sizeof(key), "%s|copy-has-more|annotations|%s", kp, b->n_anno[i] - a->n_anno[i] == 1 ? "one" : "several"); v_violation(prop, key, NULL, "signal %d: the copy holds %zu annotations, the reopened original %zu", i, b->n_anno[i], a->n_anno[i]); bad++; }
+        r = seq_prefix(a->n_utc[i], a->seq_utc[i], a->h_utc[i], b->n_utc[i], b->seq_utc[i], b->h_utc[i]);
+        if (r < 0) { snprintf(key, sizeof(key), "%s|utc", kp); v_violation(prop, key, NULL, "signal %d: UTC entries of the original (%zu) are not a prefix of the copy's (%zu)", i, a->n_utc[i], b->n_utc[i]); bad++; }
+        else if (r > 0) { snprintf(key, sizeof(key), "%s|copy-has-more|utc", kp); v_violation(prop, key, NULL, "signal %d: the copy holds %zu UTC entries, the reopened original %zu", i, b->n_utc[i], a->n_utc[i]); bad++; }
+        if (a->length[i] <= 0 && b->length[i] <= 0) continue;
+        if (skip_fsr && skip_fsr[i]) continue;
+        if (a->length[i] > b->length[i]) { snprintf(key, sizeof(key), "%s|copy-shorter", kp); v_violation(prop, key, NULL, "signal %d: copy has %lld samples, the reopened original %lld", i, (long long) b->length[i], (long long) a->length[i]); bad++; continue; }
+        /* common prefix must read the same */
+        if (!ra && (jls_rd_open(&ra, path_a) || jls_rd_open(&rb, path_b))) break;
+        struct jls_signal_def_s def;
+        if (jls_rd_signal(ra, (uint16_t) i, &def)) continue;
+        if (a->length[i] < b->length[i]) {
+            snprintf(key, sizeof(key), "%s|copy-has-more|samples|%s", kp, b->length[i] - a->length[i] <= (int64_t) def.samples_per_data ? "one-block" : "several-blocks");
+            v_violation(prop, key, NULL, "signal %d: the copy has %lld samples, the reopened original %lld (block = %u)", i, (long long) b->length[i], (long long) a->length[i], def.samples_per_data); bad++;
+        }
+        const dtype_t *t = dtype_by_code(def.data_type);
+        int64_t n = a->length[i], pos = 0;
+        while (pos < n && t) {
+            int64_t ln = n - pos > 65536 ? 65536 : n - pos;
+            size_t nb = rd_buf_bytes(t, ln);
+            uint8_t *xa = calloc(nb + 1, 1), *xb = calloc(nb + 1, 1);
+            int32_t r1 = jls_rd_fsr(ra, (uint16_t) i, pos, xa, ln), r2 = jls_rd_fsr(rb, (uint16_t) i, pos, xb, ln);
+            int same = r1 == r2 && (r1 || bits_equal(xa, 0, xb, 0, ln * t->bits, NULL));
+            free(xa); free(xb);
+            if (!same) { snprintf(key, sizeof(key), "%s|samples", kp); v_violation(prop, key, NULL, "signal %d: samples [%lld,+%lld) read differently from original and copy (rc %d vs %d)", i, (long long) pos, (long long) ln, r1, r2); bad++; break; }
+            pos += ln;
+        }
+    }
+    if (ra) jls_rd_close(ra);
+    if (rb) jls_rd_close(rb);
     return bad;
 }
